@@ -41,7 +41,7 @@ struct Case {
 
 /// A new run normally starts within milliseconds of the previous one finishing; the periodic
 /// re-probe is 20-26 s away.  The bound separates the two with a wide margin on both sides.
-const RESTART_BOUND: Duration = Duration::from_secs(8);
+const RESTART_BOUND: Duration = Duration::from_secs(15);
 const HARNESS_WAIT: Duration = Duration::from_secs(60);
 
 fn harness_fail(what: &str) -> ! {
@@ -210,8 +210,8 @@ fn run_case(c: &Case) -> Outcome {
 }
 
 pub fn run(ctx: &Ctx) {
-    ctx.rule("schedule enumeration on a real endpoint whose net reports run against an in-process relay: update requests (relay map change through the public API) issued {while the run is held just after its start, after its done signal but before the run task ended, after it ended} x {run task held until the actor reacted to the done signal, released at once} x {1, 2 requests} x repetitions; oracle: start/finish events never overlap; after a request a second run starts within 8 s of the first run's completion (periodic re-probe is 20-26 s away); non-trivial = request during the run or in the done window with the actor reacting inside the window");
-    ctx.assume("the 8 s real-time bound is a detector between 'immediately' (ms) and 'next periodic tick' (>= 20 s); only the two instrumented windows are controlled");
+    ctx.rule("schedule enumeration on a real endpoint whose net reports run against an in-process relay: update requests (relay map change through the public API) issued {while the run is held just after its start, after its done signal but before the run task ended, after it ended} x {run task held until the actor reacted to the done signal, released at once} x {1, 2 requests} x repetitions; oracle: start/finish events never overlap; after a request a second run starts within 15 s of the first run's completion (periodic re-probe is 20-26 s away); non-trivial = request during the run or in the done window with the actor reacting inside the window");
+    ctx.assume("the 15 s real-time bound is a detector between 'immediately' (ms) and 'next periodic tick' (>= 20 s); only the two instrumented windows are controlled");
     let reps = ctx.tier.pick(1u8, 4);
     let mut cases = vec![];
     for rep in 0..reps {
